@@ -116,7 +116,15 @@ def captured_sleeps():
     async def fake_async_sleep(delay: float, *a: Any, **k: Any) -> None:
         sleeps.append(delay)
 
-    with mock.patch.object(r.time, 'sleep', fake_sleep), mock.patch.object(r.asyncio, 'sleep', fake_async_sleep):
+    with contextlib.ExitStack() as stack:
+        stack.enter_context(mock.patch.object(r.time, 'sleep', fake_sleep))
+        stack.enter_context(mock.patch.object(r.asyncio, 'sleep', fake_async_sleep))
+        # should the module ever bind the functions directly (from time import sleep / from asyncio import sleep as asleep ...)
+        for name, obj in list(vars(r).items()):
+            if getattr(obj, '__module__', None) == 'time' and getattr(obj, '__name__', '') == 'sleep':
+                stack.enter_context(mock.patch.object(r, name, fake_sleep))
+            elif getattr(obj, '__module__', '').startswith('asyncio') and getattr(obj, '__name__', '') == 'sleep':
+                stack.enter_context(mock.patch.object(r, name, fake_async_sleep))
         yield sleeps
 
 
